@@ -513,7 +513,8 @@ Fixpoint scan_explicit (g : mol) (l : list (Z * atom)) (d : list (Z * list Z)) :
   | [] => Ok d
   | (n, a) :: rest =>
       if is_protium a then
-        if (1 <? Z.of_nat (List.length (nbrs g n))) then Err ValenceError
+        (* if sum(b != 8 for b in bonds[n].values()) > 1: coordinate bonds are not a valence of hydrogen *)
+        if (1 <? Z.of_nat (List.length (filter (fun mb => negb (b_ord (snd mb) =? 8)) (nbrs g n)))) then Err ValenceError
         else match scan_h_bonds g n (nbrs g n) d with
              | Err e => Err e
              | Ok d' => scan_explicit g rest d'
